@@ -83,6 +83,11 @@ def main():
                 st["unsupported"] = st.get("unsupported", 0) + 1
             else:
                 rep.add("acyclic-rejected:%s:%s" % (kind, ",".join(sorted(codes))), labels=labels, detail={"graph": g}, replay=replay)
+    # vacuity guard: a realisation that the analyzer mostly answers with "not implemented" decides nothing
+    for kind, st in stats.items():
+        total = st["cyclic"] + st["acyclic"]
+        if kind != "struct+alias" and kind != "struct+alias-lowercase-refs" and st.get("unsupported", 0) > total // 2:
+            raise vlib.ToolError("realisation %s: %d of %d units are answered 'not implemented' (P9999): the realisation is vacuous" % (kind, st["unsupported"], total))
     cov["graphs"] = len(graphs)
     cov["units_analysed"] = len(cases)
     cov["by_realisation"] = stats
